@@ -94,10 +94,12 @@ def nll_at(fcn, params):
     return float(fcn(params))
 
 
-def run_fit(config, data, phsp, meth, stop):
+def run_fit(config, data, phsp, meth, stop, grad_scale=None):
     from tf_pwa.fit import LargeNumberError
 
     kw = {}
+    if grad_scale is not None:
+        kw["grad_scale"] = grad_scale
     if stop == "maxiter":
         kw["maxiter"] = 2
     elif stop == "large":
@@ -121,7 +123,7 @@ def run_fit(config, data, phsp, meth, stop):
     return res
 
 
-def observe(ctx, key, config, amp, fcn, res, before, nll_start, cset, dct, data, phsp, work, tag, above_start=True):
+def observe(ctx, key, config, amp, fcn, res, before, nll_start, cset, dct, data, phsp, work, tag, above_start=True, ranges_now=None):
     """the clauses of C08 on the real objects; returns number of problems reported"""
     probs = []
     now = {k: float(v) for k, v in config.get_params().items()}
@@ -137,6 +139,8 @@ def observe(ctx, key, config, amp, fcn, res, before, nll_start, cset, dct, data,
             ranges[pn + "_mass"] = [pv.get("m_min"), pv.get("m_max")]
         if "g" in pv.get("float", []):
             ranges[pn + "_width"] = [pv.get("g_min"), pv.get("g_max")]
+    if ranges_now:
+        ranges.update(ranges_now)  # the range declared at the time of this fit
     for n, (lo, hi) in ranges.items():
         v = now[n]
         if (lo is not None and v < lo - 1e-9) or (hi is not None and v > hi + 1e-9):
@@ -275,8 +279,12 @@ def adversary_part(ctx, rng, cases, quick):
             nll_start = nll_at(fcn, {})
             adv = Adversary(evals, b, stop == "converged", random.Random(ctx.seed * 1000 + n))
             tfit.minimize = adv
+            # the objective handed to the minimiser may be scaled (ConfigLoader.fit(grad_scale=...)): every other case
+            gs = 2.5 if n % 2 else None
+            if gs:
+                key += ":grad_scale=2.5"
             try:
-                res = run_fit(config, data, phsp, meth, stop)
+                res = run_fit(config, data, phsp, meth, stop, grad_scale=gs)
             except Exception as e:
                 tfit.minimize = real_minimize
                 ctx.violation(key + ":raises", {"error": repr(e)[:300]})
@@ -292,6 +300,38 @@ def adversary_part(ctx, rng, cases, quick):
     finally:
         tfit.minimize = real_minimize
     ctx.part("adversarial_minimiser", cases=n, methods=len(set(c[0] for c in cases)))
+    return n
+
+
+def rebound_part(ctx, quick):
+    """a second fit after the declared range of a parameter was changed: bounds left installed by the previous fit (the
+    Newton-type epilogues of FitSession.tla keep `installed`) must not survive the new declaration"""
+    n_data, n_phsp = 60, 240
+    p_data = models.phsp_p4(n_data, ctx.seed % 1000 + 61)
+    p_phsp = models.phsp_p4(n_phsp, ctx.seed % 1000 + 62)
+    n = 0
+    for prev in (("Newton-CG-p",) if quick else ("Newton-CG-p", "trust-ncg", "BFGS")):
+        dct, config, amp = build("small", ctx.seed % 1000 + 70 + n, n_data, n_phsp)
+        data = config.data.cal_angle(p_data)
+        phsp = config.data.cal_angle(p_phsp)
+        fcn = config.get_fcn([[data], [phsp], None, None])
+        key = "refit_after_range_change:%s>BFGS" % prev
+        try:
+            run_fit(config, data, phsp, prev, "converged" if prev != "BFGS" else "maxiter")
+            cur = float(config.get_params()[R1])
+            lo2, hi2 = (cur + 0.1, 1.5) if cur + 0.15 < 1.5 else (0.2, cur - 0.1)
+            config.bound_dic[R1] = (lo2, hi2)
+            before = {k: float(v) for k, v in config.get_params().items()}
+            nll_start = nll_at(fcn, {})
+            res = run_fit(config, data, phsp, "BFGS", "maxiter")
+        except Exception as e:  # noqa: BLE001
+            ctx.violation(key + ":raises", {"error": repr(e)[:300]})
+            n += 1
+            continue
+        observe(ctx, key, config, amp, fcn, res, before, nll_start, "small", dct, data, phsp, ctx.work, "rb%d" % n, above_start=False, ranges_now={R1: [lo2, hi2]})
+        ctx.count(1, distinct_key=key)
+        n += 1
+    ctx.part("refit_after_range_change", scenarios=n)
     return n
 
 
@@ -388,6 +428,7 @@ def run(ctx):
     if not adv_cases:
         raise tlc.MachineryError("no returned state of FitSession.tla to realise with the adversary")
     nadv = adversary_part(ctx, rng, adv_cases, quick)
+    nadv += rebound_part(ctx, quick)
     ctx.cov["traces_validated_against_impl"] = nrun + nadv
     ctx.cov["rule"] = (
         "FitSession.tla: all sessions of <= 2 fits x 12 method names x stop kinds x <= 3 adversarial evaluations, with and "
